@@ -1796,6 +1796,9 @@ class Engine:
                 raise PyRaise(VExc("TypeError", VStr("unsupported operand"), origin=f"add@{getattr(node, 'lineno', '?')}"))
         if isinstance(op, ast.BitOr) and isinstance(a, VOpaque):
             return a
+        if isinstance(op, (ast.BitOr, ast.BitAnd)) and isinstance(a, VExt) and isinstance(b, VExt):
+            # flag constants of external modules (ssl.OP_*, SSL.OP_*): an opaque combination
+            return VExt(f"({a.dotted}{'|' if isinstance(op, ast.BitOr) else '&'}{b.dotted})")
         raise Unsupported(f"binop {type(op).__name__} on {a!r}, {b!r} line {getattr(node, 'lineno', '?')}")
 
     def e_Compare(self, ctx, fr, e):
